@@ -3,6 +3,7 @@ package storemc
 import (
 	"bytes"
 	"fmt"
+	"github.com/youzan/ZanRedisDB/common"
 	"math"
 	"sort"
 
@@ -310,13 +311,14 @@ func isoCreate(s *Store, ts int64, typ, name string) Reply {
 		return s.Write(ts, "set", name, "v-"+name)
 	case "hash":
 		s.Write(ts, "hset", name, "f", "v-"+name)
+		s.Write(ts, "hset", name, "", "empty-field") // the element at the very start of the collection's range
 		return s.Write(ts, "hset", name, "g:", "w")
 	case "list":
 		return s.Write(ts, "rpush", name, "v-"+name, "w")
 	case "set":
-		return s.Write(ts, "sadd", name, "m-"+name, ":")
+		return s.Write(ts, "sadd", name, "m-"+name, ":", "")
 	case "zset":
-		return s.Write(ts, "zadd", name, "1", "m-"+name, "2", ":")
+		return s.Write(ts, "zadd", name, "1", "m-"+name, "2", ":", "0", "")
 	}
 	panic(typ)
 }
@@ -377,14 +379,21 @@ func RunIsolation(s *Store, col *ev.Collector, label string, names []string, dl 
 	s.Load(Dump{})
 	type ent struct{ typ, name string }
 	var ents []ent
+	created := map[ent][]string{}
 	for _, typ := range isoTypes {
 		for _, n := range names {
+			before := s.Dump()
 			r := isoCreate(s, ts, typ, n)
 			if r.IsErr() {
 				col.Outcome("isolation:name-rejected:" + typ)
 				continue
 			}
 			ents = append(ents, ent{typ, n})
+			for k := range s.Dump() {
+				if _, had := before[k]; !had && !skipMetaKey(k) {
+					created[ent{typ, n}] = append(created[ent{typ, n}], k)
+				}
+			}
 		}
 	}
 	base := s.Dump()
@@ -400,6 +409,16 @@ func RunIsolation(s *Store, col *ev.Collector, label string, names []string, dl 
 			s.Write(ts+1e9, c...)
 		}
 		after := s.Dump()
+		if s.Opt.Policy != common.WaitCompact {
+			// exactly the keys of the addressed collection: none of its own may stay behind
+			// (under wait_compact a clear only starts a new version, the old keys wait for a compaction)
+			for _, k := range created[e] {
+				if _, still := after[k]; still {
+					col.Add(ev.Violation{Property: "C12", Signature: "C12|store|clear-leaves-own-key|" + e.typ, What: fmt.Sprintf("%s: clearing %s %q leaves its stored key %q behind", label, e.typ, e.name, k)})
+					break
+				}
+			}
+		}
 		for k := range base {
 			if _, still := after[k]; !still && !skipMetaKey(k) {
 				if prev, dup := owner[k]; dup && prev != e {
